@@ -1,12 +1,14 @@
 (* C05 Hierarchical segment/record structure is matched greedily and completely.
-   Statements only; proofs in Proofs/Hier{Base,Sim,Main,Inst,Term,Filter}.v.
+   Statements only; proofs in Proofs/Hier{Base,Sim,Main,Inst,Term,Filter,Edi}.v.
 
    Model/Hier.v      hstep / edi_step: the explicit-stack machines of hierarchyReader.go and
                      edi/reader.go; flat_leaf / edi_leaf: the leaf matchers.
    Model/HierSpec.v  spec: the documented recursive greedy, non-backtracking matcher. *)
 From Coq Require Import List Arith Bool.
 Import ListNotations.
-From OV Require Import Model.Hier Model.HierSpec Proofs.HierBase Proofs.HierSim Proofs.HierMain Proofs.HierInst Proofs.HierTerm Proofs.HierFilter.
+From OV Require Import Model.Hier Model.HierSpec Proofs.HierBase Proofs.HierSim Proofs.HierMain Proofs.HierInst Proofs.HierTerm Proofs.HierFilter Proofs.HierEdi.
+From OV Require Import Gen.Occurs Model.HierOcc Proofs.HierOcc Model.HierLines Proofs.HierLines.
+From Coq Require Import ZArith.
 
 (* run_fuel ds us = 2 * ((N * units + N) * (B + 1) + B) + 1 loop iterations, N = size of the
    hierarchy + 2, B = N * N + N. *)
@@ -47,6 +49,29 @@ Section Generic.
   Theorem edi_terminates : forall ds us, Forall (WF try_leaf) ds ->
     snd (run (edi_step try_leaf) (run_fuel ds us) (init ds us)) <> TOutOfFuel.
   Proof. exact (edi_terminates try_leaf). Qed.
+
+  (* EDI WITHOUT any guard: for every well-formed hierarchy and EVERY input the EDI machine is the
+     recursive matcher with the declared top-level sequence repeated as long as the next unit
+     starts its first declaration (spec_repeat).  This characterises the known finding F14
+     exactly: the machine deviates from the documented matcher iff a further round changes the
+     result. *)
+  Theorem edi_eq_repeat_spec : forall ds us,
+    Forall (WF try_leaf) ds -> count_tgts ds <= 1 ->
+    run (edi_step try_leaf) (run_fuel ds us) (init ds us) = spec_repeat try_leaf ds us.
+  Proof. exact (edi_eq_repeat_full try_leaf). Qed.
+
+  Theorem edi_eq_spec_iff : forall ds us,
+    Forall (WF try_leaf) ds -> count_tgts ds <= 1 ->
+    (run (edi_step try_leaf) (run_fuel ds us) (init ds us) = spec try_leaf ds us <->
+     spec_repeat try_leaf ds us = spec try_leaf ds us).
+  Proof.
+    intros ds us Hwf Hc. rewrite (edi_eq_repeat_full try_leaf ds us Hwf Hc). tauto.
+  Qed.
+
+  (* inside the guard no further round starts *)
+  Theorem guard_means_single_round : forall ds us,
+    no_root_repeat try_leaf ds us -> spec_repeat try_leaf ds us = spec try_leaf ds us.
+  Proof. exact (repeat_eq_spec_iff_guard try_leaf). Qed.
 
   (* units are consumed strictly left to right, none twice: in every state reachable from st0
      (through any number of loop iterations and Read/Release boundaries) the unprocessed units
@@ -109,6 +134,66 @@ Theorem edi_machine_eq_spec_nested : forall ds us,
   forallb wfb ds = true -> count_tgts ds <= 1 -> no_root_repeat edi_leaf ds us ->
   run_kind KEdi ds us = spec_kind KEdi ds us.
 Proof. exact edi_machine_eq_spec_full. Qed.
+
+(* How an omitted or negative min / max is resolved, over the rules EXTRACTED from the
+   MinOccurs/MaxOccurs functions of the three formats (Gen/Occurs.v): csv2 and fixedlength2 default to
+   0 .. unbounded, EDI to 1 .. 1; a negative max means unbounded everywhere; explicit values are
+   taken as written (so max = 0 stays 0: finding F17). *)
+Theorem occurs_defaults :
+  resolve_min occ_csv2 None = 0 /\ resolve_max occ_csv2 None = None /\
+  resolve_min occ_fixedlength2 None = 0 /\ resolve_max occ_fixedlength2 None = None /\
+  resolve_min occ_edi None = 1 /\ resolve_max occ_edi None = Some 1 /\
+  forall r, In r [occ_csv2; occ_fixedlength2; occ_edi] ->
+    (forall z, (z < 0)%Z -> resolve_max r (Some z) = None) /\
+    (forall z, (0 <= z)%Z -> resolve_max r (Some z) = Some (Z.to_nat z) /\ resolve_min r (Some z) = Z.to_nat z).
+Proof. exact occurs_defaults_lemma. Qed.
+
+(* ---- the line acquisition layer under the matcher (csv2 / fixedlength2 readLine, linesBuf) ---- *)
+(* Physical lines are empty (skipped by readLine) or units; buf = linesBuf, src = lines not read yet.
+   For EVERY buffer content and EVERY sequence of physical lines:
+   MoreUnprocessedData answers "is a unit left", and keeps every unit, in order *)
+Theorem lines_more_unprocessed : forall buf src,
+  let '(more, buf', src') := more_unprocessed buf src in
+  buf' ++ units_of src' = buf ++ units_of src /\
+  (more = true <-> buf ++ units_of src <> []) /\ (more = true -> buf' <> []) /\
+  length buf' + length src' <= length buf + length src.
+Proof. exact more_unprocessed_ok. Qed.
+
+(* a rows-based record matches iff k units (non-empty lines) are left, whatever empty lines lie
+   between them; read-ahead only appends to linesBuf: nothing is lost or reordered *)
+Theorem lines_rows_refine : forall k fuel buf src, length src <= fuel ->
+  let '(ok, buf', src') := rows_fill k buf src fuel in
+  buf' ++ units_of src' = buf ++ units_of src /\
+  (ok = true <-> k <= length (buf ++ units_of src)) /\ (ok = true -> k <= length buf').
+Proof. exact rows_fill_ok. Qed.
+
+(* the header/footer loop of readAndMatchHeaderFooterBased*, for arbitrary header / footer
+   predicates on a line: its answer is the declarative window over the units still to come (starts
+   on a header line, ends at the first footer line from the header line on; EOF first = no match),
+   the whole window is in linesBuf afterwards, and every unit is still there, in order *)
+Theorem lines_header_footer_refine : forall (hp fp : unt -> bool) buf src,
+  let '(r, buf', src') := hf_match hp fp buf src in
+  buf' ++ units_of src' = buf ++ units_of src /\
+  r = window hp fp (buf ++ units_of src) /\
+  (forall m, r = Some m -> m <= length buf').
+Proof. exact hf_match_ok. Qed.
+
+(* and the unit-level leaf matchers the machine theorems use are exactly these windows *)
+Theorem leaf_matchers_are_windows : forall h f us,
+  flat_leaf (LHF h f) us = window (fun u => u_name u =? h) (fun u => u_name u =? f) us /\
+  flat_leaf (LPat h (Some f)) us =
+    window (fun u => Nat.testbit (u_name u) h) (fun u => Nat.testbit (u_name u) f) us.
+Proof. intros. split; [apply flat_leaf_LHF_window|apply flat_leaf_LPat_window]. Qed.
+
+Example lines_nonvacuous :
+  let u := fun n i => Some (U n i) in
+  (* H, blank, M, blank, blank, T, X with nothing buffered yet: the window is 3 units long *)
+  hf_match (fun x => u_name x =? 8) (fun x => u_name x =? 20) []
+           [None; u 8 1; None; u 13 2; None; None; u 20 3; u 24 4]
+  = (Some 3, [U 8 1; U 13 2; U 20 3], [u 24 4]) /\
+  (* no footer before EOF: no match, and all units are kept *)
+  fst (fst (hf_match (fun x => u_name x =? 8) (fun x => u_name x =? 20) [] [u 8 1; None; u 13 2])) = None.
+Proof. vm_compute. split; reflexivity. Qed.
 
 (* F14 (known finding): without the guard the EDI statement is false.  Declarations A (target,
    max 1), Z (max 1), units A Z A Z: the machine delivers both A and ends with EOF, the greedy
